@@ -111,7 +111,10 @@ fn shard(seed: u64, shard: u64, n: u64) -> Tally {
             ..Default::default()
         };
         let mut l = gen_logical(&mut r, &cfg, &o);
-        l.method = "POST".into();
+        // (any method: a form body folds under GET, HEAD, OPTIONS or an extension method exactly as under POST)
+        if r.coin() {
+            l.method = "POST".into();
+        }
         // body parameter list with a controlled share of names that also occur in the URL / repeat inside the body
         let mut fp = gen_pairs(&mut r, 10);
         if !l.url_pairs.is_empty() && !fp.is_empty() && r.chance(2, 3) {
@@ -211,7 +214,7 @@ fn shard(seed: u64, shard: u64, n: u64) -> Tally {
                 }
             }
             // and when folding, a flipped *parameter* byte changes the merged query (or breaks decoding)
-            if is_form {
+            if is_form && !a.wire.body.is_empty() {
                 let mut c = a.clone();
                 let p = r.usize_below(c.wire.body.len());
                 let old = c.wire.body[p];
@@ -230,9 +233,47 @@ fn shard(seed: u64, shard: u64, n: u64) -> Tally {
         // undecodable bodies / unknown charsets, folding on
         if is_form && i % 4 == 0 {
             let mut c = a.clone();
-            match r.below(3) {
+            match r.below(5) {
                 0 => c.wire.body = b"a=\xff\xfe&b=1".to_vec(),
                 1 => c.wire.body = b"a=%zz".to_vec(),
+                2 => {
+                    // the spelled body made undecodable: truncated inside a multi-byte sequence at its end, a lone lead or
+                    // continuation byte somewhere, an overlong or surrogate sequence, in a name or in a late pair
+                    let mut b2 = c.wire.body.clone();
+                    let bad: &[u8] = r.pick_bytes(&[b"\xc3", b"\xe2\x82", b"\x80", b"\xbf", b"\xc0\xaf", b"\xed\xa0\x80", b"\xf4\x90\x80\x80", b"\xfe", b"\xf0\x9f\x98"]);
+                    match r.below(3) {
+                        0 => b2.extend_from_slice(bad),
+                        1 => {
+                            let p = r.usize_below(b2.len() + 1);
+                            b2.splice(p..p, bad.iter().copied());
+                        }
+                        _ => {
+                            let mut f = b"n".to_vec();
+                            f.extend_from_slice(bad);
+                            f.extend_from_slice(b"=v&");
+                            f.extend_from_slice(&b2);
+                            b2 = f;
+                        }
+                    }
+                    c.wire.body = b2;
+                }
+                3 => {
+                    // incomplete or malformed escapes, at any pair
+                    let mut b2 = c.wire.body.clone();
+                    let bad: &[u8] = r.pick_bytes(&[b"a=%", b"a=%4", b"%=1", b"%zz=1", b"x=%+5", b"y=%4\xe2\x82\xac", b"k=%G0", b"%"]);
+                    if b2.is_empty() || r.coin() {
+                        if !b2.is_empty() {
+                            b2.push(b'&');
+                        }
+                        b2.extend_from_slice(bad);
+                    } else {
+                        let mut f = bad.to_vec();
+                        f.push(b'&');
+                        f.extend_from_slice(&b2);
+                        b2 = f;
+                    }
+                    c.wire.body = b2;
+                }
                 _ => {
                     for h in c.wire.headers.iter_mut() {
                         if h.0.eq_ignore_ascii_case(b"content-type") {
@@ -245,6 +286,51 @@ fn shard(seed: u64, shard: u64, n: u64) -> Tally {
                 if !ok && st == Stage::Query {
                     t.count("undecodable_refused_400");
                     t.nontrivial(c.hash());
+                }
+            }
+        }
+        // nothing folds when folding is off or the media type is not a form: then neither an unknown charset label nor an
+        // undecodable body is anybody's business — the body is hashed as it is and a correctly signed request is accepted
+        if i % 3 == 0 {
+            let mut v = l.clone();
+            v.form_pairs = None;
+            v.body = match r.below(4) {
+                0 => b"a=\xff\xfe&b=1".to_vec(),
+                1 => b"a=%zz&%".to_vec(),
+                2 => b"\xff\xfea\x00=\x001\x00".to_vec(),
+                _ => b"name=caf\xe9".to_vec(),
+            };
+            let fold_off = r.coin();
+            let mut vcfg = cfg.clone();
+            let ct: &[u8] = if fold_off {
+                vcfg.fold = false;
+                r.pick_bytes(&[
+                    b"application/x-www-form-urlencoded; charset=zz-unknown",
+                    b"application/x-www-form-urlencoded; charset=iso-8859-1",
+                    b"application/x-www-form-urlencoded",
+                    b"application/x-www-form-urlencoded; charset=utf-8",
+                ])
+            } else {
+                vcfg.fold = true;
+                r.pick_bytes(&[b"text/plain; charset=zz-x", b"application/json; charset=zz-unknown", b"application/octet-stream; charset=utf-8", b"text/plain; charset=utf-16"])
+            };
+            v.content_type = Some(ct.to_vec());
+            let present = crate::gen::present_header_names(&v);
+            v.signed.retain(|s| present.contains(s));
+            let mut sr = Rng::keyed(seed, "C12", "verbatim-odd", shard, i);
+            let mut sp = Speller {
+                r: &mut sr,
+                level: 1,
+            };
+            let (cv, _) = make_case(&v, &vcfg, &mut sp, &Overrides::default(), 0);
+            if let Some((ok, _)) = judge_one(&mut t, &cv, "verbatim/odd-charset-or-undecodable") {
+                if ok {
+                    t.count(if fold_off {
+                        "verbatim_odd_accepted_fold_off"
+                    } else {
+                        "verbatim_odd_accepted_other_type"
+                    });
+                    t.nontrivial(cv.hash());
                 }
             }
         }
@@ -395,6 +481,8 @@ pub fn run(tier: Tier) -> i32 {
     ctx.gate("other content types never fold", tally.get("non_form_never_folds_ok"), tier.n(1000, 20_000));
     ctx.gate("body byte flips refused when hashed verbatim", tally.get("body_flip_refused"), tier.n(3000, 50_000));
     ctx.gate("undecodable body / unknown charset refused as 400", tally.get("undecodable_refused_400"), tier.n(500, 10_000));
+    ctx.gate("odd charset labels / undecodable bodies accepted when hashed verbatim, folding off", tally.get("verbatim_odd_accepted_fold_off"), tier.n(1_000, 20_000));
+    ctx.gate("odd charset labels / undecodable bodies accepted when hashed verbatim, folding on but another media type", tally.get("verbatim_odd_accepted_other_type"), tier.n(1_000, 20_000));
     ctx.gate("form bodies starting with a UTF-8 BOM accepted with every byte signed", tally.get("utf8_bom_body_accepted_with_every_byte_signed"), tier.n(60, 6000));
     ctx.gate("form bodies in UTF-16 behind a BOM refused as 400", tally.get("utf16_bom_body_refused_400"), tier.n(60, 6000));
     ctx.gate("bodies ≥ 64 KiB accepted when hashed verbatim", tally.get("big_body_accepted"), tier.n(50, 1000));
